@@ -9,6 +9,7 @@
   C18.7 issuer key id / issuer fingerprint / recipient key id are those of the operating key itself
   C18.8 every key packet rebuilt from another one (pubkey, __copy__, sub-key conversion) takes created / pkalg / keymaterial from ONE source
   C18.10 widths computed from bit lengths (ECPoint.from_values, MPI.byte_length) are ceilings at 255/256/384/521 bits; ECPoint / MPI writer-reader pairs agree (finite-point evaluation, sa/ceval.py)
+  C18.11 pkalg of every V4 key packet class (pubalg / halg / sigtype of SignatureV4) is the identity on its enum: the octet hashed is the octet received (sa/ceval.py)
   C18.9 __copy__ of the key material classes and of the field objects they serialise carries every attribute the serialiser reads
 
 Every rule is decided on interpreter values (byte terms, call / store events, return values); nothing compares source text,
@@ -254,6 +255,46 @@ def check_widths(rep, prog, rid):
         raise AnalysisError('only %d ECPoint.from_values site(s) building a key\'s own public point found' % sites)
 
 
+def check_received_codes(rep, prog, rid):
+    """The algorithm octet that enters the fingerprint (and the export) is the one the packet was given: assigning any member of
+    PubKeyAlgorithm to `pkalg` of a V4 key packet (parse and construction go through the same sdproperty setter) and reading it
+    back gives that member - no folding of deprecated ids, no default.  The same identity for the pubalg / halg / sigtype
+    octets of SignatureV4 (they are hashed with every signature the key makes).  Decided by the checker's finite-point
+    evaluator (sa/ceval.py) at every member; nothing of the repository runs."""
+    from sa.ceval import Evaluator, Obj as CObj, NoEval, Raised, Diverged
+    E = Evaluator(prog)
+    pk = prog.cls('pgpy.packet.packets', 'PubKeyV4')
+    fam = sorted((c for c in prog.all_classes() if any(b is pk for b in c.mro())), key=lambda c: c.name)
+    sig = prog.cls('pgpy.packet.packets', 'SignatureV4')
+    domains = [(c, 'pkalg', 'PubKeyAlgorithm') for c in fam] + \
+              [(sig, 'pubalg', 'PubKeyAlgorithm'), (sig, 'halg', 'HashAlgorithm'), (sig, 'sigtype', 'SignatureType')]
+    for ci, attr, en in domains:
+        members = prog.cls('pgpy.constants', en).enum_members()
+        prop = ci.find_prop(attr)
+        if prop is None:
+            raise AnalysisError('%s.%s is no longer an sdproperty' % (ci.name, attr))
+        bad, n = [], 0
+        for name, val in sorted(members.items(), key=lambda kv: kv[1] if isinstance(kv[1], int) else -1):
+            if not isinstance(val, int) or isinstance(val, bool):
+                continue
+            o = CObj(ci, {})
+            try:
+                E.set(o, attr, val)
+                got = E.get(o, attr)
+            except Raised as ex:
+                bad.append('%s (%d) -> raises %s' % (name, val, ex))
+                continue
+            except (NoEval, Diverged) as ex:
+                raise AnalysisError('%s.%s = %s.%s outside the evaluator (%s)' % (ci.name, attr, en, name, ex))
+            n += 1
+            got = getattr(got, 'ival', got)
+            if not (isinstance(got, int) and got == val):
+                bad.append('%s (%d) -> %r' % (name, val, got))
+        rep.check(not bad and n > 0, rid, '%s.%s' % (ci.name, attr), '%d member(s) of %s read back as given%s' % (n, en, '; NOT: %s' % bad if bad else ''),
+                  'the %s octet written / hashed must be the one received: the setter may not fold, default or renumber it' % attr,
+                  where=(prop.getter.where if prop.getter is not None else ci.where), expected='identity on every member of %s' % en, found=bad)
+
+
 def run(rep, prog, tier):
     rep.rule('C18.1', 'fingerprint hash input = RFC 4880 12.2 layout under SHA-1', floor=2)
     rep.rule('C18.2', 'fingerprint terms agree with the exported public-key packet body; packet version is 4', floor=4)
@@ -264,6 +305,7 @@ def run(rep, prog, tier):
     rep.rule('C18.8', 'a key packet rebuilt from another takes creation time, algorithm and key material from that one packet', floor=3)
     rep.rule('C18.9', 'copies of public key material and of its field objects carry every attribute their serialiser reads', floor=8)
     rep.rule('C18.10', 'octet widths entering the fingerprint input are ceilings of the bit length; EC points and MPIs re-parse to what was written', floor=20)
+    rep.rule('C18.11', 'the algorithm octet of a key packet (and pubalg / halg / sigtype of a signature packet) reads back as the member it was given', floor=5)
     rep.rule('C18.5', 'creation time is serialised with a UTC-correct idiom wherever it is hashed or exported', floor=2)
     rep.assume('int_to_bytes(x, n) emits max(n, byte_length(x), 1) big-endian octets (pgpy.types.PGPObject; checked under C09)')
 
@@ -415,6 +457,7 @@ def run(rep, prog, tier):
     families.check_key_packet_rebuilds(rep, prog, 'C18.8')
     families.check_copy_carries_serialised(rep, prog, 'C18.9')
     check_widths(rep, prog, 'C18.10')
+    check_received_codes(rep, prog, 'C18.11')
     # C18.5 time idiom
     check_time_sites(rep, prog, 'C18.5', only=('PubKeyV4.fingerprint', 'PubKeyV4.__bytearray__'))
 
